@@ -281,7 +281,8 @@ def run_reused_sampler(cfg):
     r = Report()
     case = {"reused_sampler": True, "cfg": cfg}
     r.case(explorer.digest(case), nontrivial=True)
-    p = rh.problem(cfg.get("precond", "none"))
+    flow_pre = cfg.get("precond") == "flow"  # the sampler fits a zuko flow as its preconditioner (seeded through the instance's flow options)
+    p = rh.problem("none" if flow_pre else cfg.get("precond", "none"))
 
     def one(smp, a, sd, first):
         _kernel.reset(mode="prw" if sampler in ("smc", "minipcn") else "det", scale=0.5, horizon=500, emcee_seed=sd)
@@ -315,9 +316,13 @@ def run_reused_sampler(cfg):
     def build():
         mon = Monitor(p["like"], p["prior"], "numpy", keep_points=False)
         flow = AnalyticFlow(2, seed=seed + 1000, **p["flow"])
+        extra = {"flow_backend": "zuko", "seed": 11, "hidden_features": [8], "transforms": 1} if flow_pre else {}
         a = Aspire(log_likelihood=mon.log_likelihood, log_prior=mon.log_prior, dims=2, parameters=p["parameters"],
-                   prior_bounds=p["bounds"], periodic_parameters=p["periodic"], flow=flow, xp=get_xp("numpy"))
-        smp = a.init_sampler(sampler, preconditioning=p["preconditioning"], preconditioning_kwargs=dict(p["pk"]) if p["pk"] else None)
+                   prior_bounds=p["bounds"], periodic_parameters=p["periodic"], flow=flow, xp=get_xp("numpy"), **extra)
+        if flow_pre:
+            smp = a.init_sampler(sampler, preconditioning="flow", preconditioning_kwargs={"fit_kwargs": {"n_epochs": 1, "batch_size": 8}})
+        else:
+            smp = a.init_sampler(sampler, preconditioning=p["preconditioning"], preconditioning_kwargs=dict(p["pk"]) if p["pk"] else None)
         a._sampler = smp
         return a, smp
 
@@ -494,6 +499,8 @@ def run(tier, seed, workers):
         for precond in ("none", "logit_affine") if tier == "quick" else ("none", "logit_affine", "periodic", "tight"):
             for sd in sorted({0, seed}):
                 jobs.append(("run_reused_sampler", {"sampler": sampler, "seed": sd, "precond": precond}))
+        if sampler in ("smc", "minipcn"):
+            jobs.append(("run_reused_sampler", {"sampler": sampler, "seed": 0, "precond": "flow"}))
     for route in ("resume_from_file", "ZukoFlow.load"):
         for sd in sorted({0, 1, seed}) if tier == "thorough" else (0, 1):
             jobs.append(("run_loaded_flow", {"route": route, "seed": sd}))
